@@ -448,6 +448,51 @@ func init() {
 					c.check(okAll, shortName(fn)+": seen :=", p.instrPos(st), why, "the per-render seen set is assigned from "+why+": v-once bookkeeping may be shared between renders")
 				})
 			}
+			// a render's context lives as long as the render: it is not kept in a long-lived object or a package-level
+			// variable (its seen set, processors and tag stack would be the next render's as well)
+			kept := 0
+			for _, fn := range p.Funcs {
+				if p.Dropped[fn] {
+					continue
+				}
+				eachInstr(fn, func(in ssa.Instruction) {
+					st, ok := in.(*ssa.Store)
+					if !ok {
+						return
+					}
+					vt := st.Val.Type()
+					if pt, ok := vt.(*types.Pointer); ok {
+						vt = pt.Elem()
+					}
+					if _, nm := namedType(vt); nm != "VueContext" {
+						return
+					}
+					where := ""
+					switch a := st.Addr.(type) {
+					case *ssa.Global:
+						where = "package-level variable " + a.Name()
+					case *ssa.FieldAddr:
+						if _, isLocal := a.X.(*ssa.Alloc); isLocal {
+							return
+						}
+						ht := a.X.Type()
+						if pt, ok := ht.(*types.Pointer); ok {
+							ht = pt.Elem()
+						}
+						if pkg, nm := namedType(ht); strings.HasPrefix(pkg, modPath) && nm != "VueContext" {
+							where = "field " + fieldName(a.X.Type(), a.Field) + " of " + nm
+						}
+					}
+					if where == "" {
+						return
+					}
+					kept++
+					c.fail(fmt.Sprintf("%s: a render context is kept in %s", shortName(fn), where), p.instrPos(st), "a VueContext is stored in "+where+": the v-once record (and the other per-render state) of one render is what the next render on the same object starts with — elements marked v-once are emitted in the first render only")
+				})
+			}
+			if kept == 0 {
+				c.ok("no render context is kept beyond its render", "-", "no store of a VueContext into a long-lived object or package-level variable")
+			}
 			// every entry that evaluates builds its context with the constructor
 			ctor := p.MustFn("vuego.NewVueContext")
 			// ... and the constructor always installs a fresh set (a nil set panics on the first v-once element of an included component)
